@@ -3,6 +3,7 @@ package main
 import (
 	"fmt"
 	"go/types"
+	"os"
 	"sort"
 	"strings"
 
@@ -161,7 +162,9 @@ func (u *Unit) Run() {
 			}
 		}
 		if !found {
-			u.fail("contract names loop %d but the function has %d loops", ord, len(u.loops))
+			// invariants are proof hints: those of a loop that no longer exists are dropped, the
+			// postconditions still have to be proved for the code as it is
+			fmt.Fprintf(os.Stderr, "jvc: note: contract of %s has invariants for loop %d but the function has %d loops; they are ignored\n", u.name, ord, len(u.loops))
 		}
 	}
 	u.execFrom(p, u.fn.Blocks[0], nil, 0, false)
@@ -453,7 +456,8 @@ func (v *Verifier) functionalWhyNot(fn *ssa.Function, seen map[*ssa.Function]boo
 				case *ssa.Builtin:
 				case *ssa.Function:
 					if callee.Pkg != v.enc.pkg || callee.Blocks == nil {
-						if !deterministicExterns[callee.String()] {
+						// functions of the pure std-lib packages (strings, strconv, unicode, ...) are functions of their arguments
+						if !deterministicExterns[callee.String()] && !(callee.Pkg != nil && pureStdPkgs[callee.Pkg.Pkg.Path()]) {
 							return fnDisplay(fn) + " calls " + callee.String()
 						}
 						continue
